@@ -448,6 +448,8 @@ class Interp:
         self.on_store: Callable[[ast.Attribute, ast.stmt, AV, State, Func], None] | None = None
         self.on_return: Callable[[ast.Return, AV, State, Func], None] | None = None
         self.hooks_all_depths = False
+        self.track_pc = False  # record the branch decisions of the entry function in state key "\u00a7pc"
+        self.track_eq = False  # remember `term == const` facts and reuse them for syntactically equal terms
         self.ranks: dict[str, int] = {}  # order-domain ranks of atoms
         self.escaped: list[str] = []  # uses of atoms outside the order fragment
         self.stubs: dict[str, Callable[[list[AV], dict[str, AV], AV | None], AV]] = {}  # qualname -> abstract summary
@@ -518,7 +520,7 @@ class Interp:
         if isinstance(e, ast.BinOp):
             a = self.ev(e.left, st, fn, depth)
             b = self.ev(e.right, st, fn, depth)
-            return self._binop(e, a, b, st, fn, depth)
+            return self._with_eq_fact(e, self._binop(e, a, b, st, fn, depth), st, fn)
         if isinstance(e, ast.IfExp):
             outs: list[AV] = []
             for s2 in self.assume(e.test, st, fn, True, depth):
@@ -556,7 +558,7 @@ class Interp:
             r = outs2[0][0]
             for o, _ in outs2[1:]:
                 r = join(r, o)
-            return r
+            return self._with_eq_fact(e, r, st, fn)
         if isinstance(e, ast.NamedExpr):
             return self.ev(e.value, st, fn, depth)
         if isinstance(e, ast.Subscript):
@@ -578,6 +580,17 @@ class Interp:
             return ConstV("<str>")
         t = self.R.type_of(e, self.R.scope(fn))
         return self._default_for_type(t)
+
+    def _with_eq_fact(self, e: ast.expr, v: AV, st: State, fn: Func) -> AV:
+        if not self.track_eq or not isinstance(v, Iv):
+            return v
+        t = self.term(e, st, fn)
+        if t is None:
+            return v
+        f = st.get("\u00a7eq:" + repr(t))
+        if isinstance(f, Iv) and v.lo <= f.lo <= v.hi:
+            return f
+        return v
 
     def _const(self, c: Any) -> AV:
         if isinstance(c, bool):
@@ -757,16 +770,18 @@ class Interp:
             a, b = self.term(e.left, st, fn), self.term(e.right, st, fn)
             if a is None or b is None:
                 return None
-            op = {ast.Add: "+", ast.Sub: "-", ast.Mult: "*", ast.FloorDiv: "//", ast.Mod: "%"}.get(type(e.op))
+            op = {ast.Add: "+", ast.Sub: "-", ast.Mult: "*", ast.FloorDiv: "//", ast.Mod: "%", ast.BitOr: "|", ast.BitAnd: "&"}.get(type(e.op))
             if isinstance(e.op, ast.RShift) and b[0] == "c" and 0 <= b[1] < 4096:
                 op, b = "//", ("c", 2 ** b[1])
+            if isinstance(e.op, ast.LShift) and b[0] == "c" and 0 <= b[1] < 4096:
+                op, b = "*", ("c", 2 ** b[1])
             if op is None:
                 return None
             if op == "//" and b[0] == "c" and b[1] > 0 and a[0] == "//" and a[2][0] == "c" and a[2][1] > 0:
                 return ("//", a[1], ("c", a[2][1] * b[1]))  # floor(floor(x/c1)/c2) == floor(x/(c1*c2)) for positive constants
             if a[0] == "c" and b[0] == "c":
                 try:
-                    return ("c", {"+": a[1] + b[1], "-": a[1] - b[1], "*": a[1] * b[1], "//": a[1] // b[1], "%": a[1] % b[1]}[op])
+                    return ("c", {"+": a[1] + b[1], "-": a[1] - b[1], "*": a[1] * b[1], "//": a[1] // b[1], "%": a[1] % b[1], "|": a[1] | b[1], "&": a[1] & b[1]}[op])
                 except ZeroDivisionError:
                     return None
             return (op, a, b)
@@ -792,7 +807,7 @@ class Interp:
             v = st.get(t[1])
             return v if isinstance(v, Iv) else TOPINT
         a, b = self.term_iv(t[1], st), self.term_iv(t[2], st)
-        return {"+": iv_add, "-": iv_sub, "*": iv_mul, "//": iv_floordiv, "%": iv_mod, "tzd": iv_tzdiv, "cmod": iv_cmod}[t[0]](a, b)
+        return {"+": iv_add, "-": iv_sub, "*": iv_mul, "//": iv_floordiv, "%": iv_mod, "tzd": iv_tzdiv, "cmod": iv_cmod, "|": iv_or, "&": iv_and}[t[0]](a, b)
 
     def _quotient_kind(self, d: tuple, a: tuple, k: tuple, st: State) -> str | None:
         """Is term d the quotient of a by k?  'floor' | 'trunc' | None."""
@@ -1393,6 +1408,12 @@ class Interp:
         elif t is ast.Eq:
             m = Iv(max(x.lo, y.lo), min(x.hi, y.hi), x.prec and y.prec)
             na = nb = m
+            if self.track_eq and not m.empty:
+                for ex_, iv_ in ((l, y), (r, x)):
+                    if iv_.const and not isinstance(ex_, (ast.Name, ast.Attribute, ast.Constant)):
+                        tt = self.term(ex_, st, fn)
+                        if tt is not None:
+                            st = st.refine("\u00a7eq:" + repr(tt), Iv(iv_.lo, iv_.lo))
         else:
             return [st]
         if na.empty or nb.empty:
@@ -1457,8 +1478,13 @@ class Interp:
                     raise Budget()
                 if isinstance(s, ast.If):
                     out: list[Any] = []
-                    out += self2.block(s.body, interp.assume(s.test, st, f, True, depth), ex)
-                    out += self2.block(s.orelse, interp.assume(s.test, st, f, False, depth), ex)
+                    tstates = interp.assume(s.test, st, f, True, depth)
+                    fstates = interp.assume(s.test, st, f, False, depth)
+                    if interp.track_pc and depth == 0:
+                        tstates = [interp._push_pc(x, s.test, True) for x in tstates]
+                        fstates = [interp._push_pc(x, s.test, False) for x in fstates]
+                    out += self2.block(s.body, tstates, ex)
+                    out += self2.block(s.orelse, fstates, ex)
                     return interp._cap(out)
                 if isinstance(s, (ast.While, ast.For)):
                     return interp._loop(self2, s, st, ex, f, depth)
@@ -1490,6 +1516,17 @@ class Interp:
             for r, (v, s) in ex.returns:
                 self.on_return(r, v, s, f)
         return rets, self._cap(ex.fall)
+
+    @staticmethod
+    def _push_pc(st: State, test: ast.expr, truth: bool) -> State:
+        old = st.get("\u00a7pc")
+        prev = old.v if isinstance(old, ConstV) else ()
+        return st.refine("\u00a7pc", ConstV(prev + ((getattr(test, "lineno", 0), getattr(test, "col_offset", 0), truth, unparse(test)[:120]),)))
+
+    @staticmethod
+    def pc_of(st: State) -> tuple:
+        v = st.get("\u00a7pc")
+        return v.v if isinstance(v, ConstV) else ()
 
     def _cap(self, states: list[State]) -> list[State]:
         states = PathWalker._dedupe(states)
@@ -1624,6 +1661,8 @@ class Interp:
         """Evaluate keeping per-path results for calls and conditional expressions (trace partitioning)."""
         if isinstance(e, ast.Call):
             outs = self.call(e, st, f, depth)
+            if self.track_eq:
+                outs = [(self._with_eq_fact(e, v, s2, f), s2) for v, s2 in outs]
             return outs if outs else []
         if isinstance(e, ast.IfExp):
             outs = []
